@@ -1,10 +1,179 @@
 import Dmn.Model.Sexp
+import Dmn.Model.Drg
+import Dmn.Model.DrgSpec
+import Dmn.Driver.Codec
+import Dmn.Driver.C01
+import Dmn.Model.NumD128
 
-/-! Driver handler for C04 — not implemented yet. -/
+/-!
+Driver handler for C04.
+
+`(c04 eval <ff> <gf> <graph> <name> <input context>)` → `(<model> <spec> <acyclic>)`:
+the model of `evaluate_invocable` (`Dmn.Drg.evaluateInvocable`), the specification
+(`Dmn.Drg.Spec.evaluateInvocable`), each `(ok v)`, `(panic site)`, `(diverge)` or
+`(unsupported)`, and whether the graph is acyclic (`Dmn.Drg.acyclic`).
+
+`(c04 closure <gf> <graph> <name>)` → `(names (s …) …)`: `closureNames`.
+`(c04 acyclic <graph>)` → `acyclic` / `cyclic`.
+
+    graph    ::= (graph (<input>…) (<decision>…) (<bkm>…) (<service>…))
+    input    ::= (<id> <name> <ty>)
+    decision ::= (<id> <name> <var> <ty> (<input id>…) (<decision id>…) (<knowledge id>…) <logic>)
+    bkm      ::= (<id> <name> <var> <ty> ((<param> <type>)…) (<knowledge id>…) <logic>)
+    service  ::= (<id> <name> <var> <ty> (<input data id>…) (<input decision id>…) (<encapsulated id>…) (<output id>…))
+    ty       ::= untyped | other | number | string | boolean | date | time | dateTime | dtDur | ymDur
+    logic    ::= (lit <ast>) | (ctx <entry>…) | (inv <logic> (<name> <logic>)…) | (rel (row (<column> <logic>)…)…)
+    entry    ::= (entry <name> <logic>) | (result <logic>)
+-/
 
 namespace Dmn.Driver.C04
-open Dmn
+open Dmn Dmn.Codec Dmn.Drg
 
-def handle (_args : List Sexp) : String := "(error not-implemented)"
+def tyOfSexp : Sexp → Option VarTy
+  | .atom "untyped" => some .untyped
+  | .atom "other" => some .other
+  | .atom "number" => some (.simple .number)
+  | .atom "string" => some (.simple .string)
+  | .atom "boolean" => some (.simple .boolean)
+  | .atom "date" => some (.simple .date)
+  | .atom "time" => some (.simple .time)
+  | .atom "dateTime" => some (.simple .dateTime)
+  | .atom "dtDur" => some (.simple .dtDur)
+  | .atom "ymDur" => some (.simple .ymDur)
+  | _ => none
+
+def strs (xs : List Sexp) : Option (List String) := xs.mapM Sexp.str?
+
+partial def logicOfSexp : Sexp → Option Ast
+  | .list [.atom "lit", a] => astOfSexp a
+  | .list (.atom "ctx" :: entries) => do
+    let es ← entries.mapM (fun e => match e with
+      | .list [.atom "entry", n, l] => do
+        let n ← Sexp.str? n
+        let l ← logicOfSexp l
+        pure (Ast.contextEntry (.contextEntryKey n) l)
+      | .list [.atom "result", l] => logicOfSexp l
+      | _ => none)
+    pure (Boxed.context es)
+  | .list (.atom "inv" :: f :: bindings) => do
+    let f ← logicOfSexp f
+    let bs ← bindings.mapM (fun b => match b with
+      | .list [n, l] => do
+        let n ← Sexp.str? n
+        let l ← logicOfSexp l
+        pure (Ast.namedParameter (.parameterName n) l)
+      | _ => none)
+    pure (Boxed.invocation f bs)
+  | .list (.atom "rel" :: rows) => do
+    let rs ← rows.mapM (fun r => match r with
+      | .list (.atom "row" :: cells) => do
+        let cs ← cells.mapM (fun c => match c with
+          | .list [n, l] => do
+            let n ← Sexp.str? n
+            let l ← logicOfSexp l
+            pure (Ast.namedParameter (.parameterName n) l)
+          | _ => none)
+        pure (Ast.namedParameters cs)
+      | _ => none)
+    pure (Boxed.relation rs)
+  | _ => none
+
+def inputOfSexp : Sexp → Option InputData
+  | .list [id, name, ty] => do
+    let id ← Sexp.str? id
+    let name ← Sexp.str? name
+    let ty ← tyOfSexp ty
+    pure { id, name, ty }
+  | _ => none
+
+def decisionOfSexp : Sexp → Option Decision
+  | .list [id, name, var, ty, .list ri, .list rd, .list rk, logic] => do
+    let id ← Sexp.str? id
+    let name ← Sexp.str? name
+    let var ← Sexp.str? var
+    let ty ← tyOfSexp ty
+    let ri ← strs ri
+    let rd ← strs rd
+    let rk ← strs rk
+    let logic ← logicOfSexp logic
+    pure { id, name, var, ty, reqInputs := ri, reqDecisions := rd, reqKnowledge := rk, logic }
+  | _ => none
+
+def bkmOfSexp : Sexp → Option Bkm
+  | .list [id, name, var, ty, .list ps, .list rk, logic] => do
+    let id ← Sexp.str? id
+    let name ← Sexp.str? name
+    let var ← Sexp.str? var
+    let ty ← tyOfSexp ty
+    let ps ← ps.mapM (fun p => match p with
+      | .list [n, t] => do
+        let n ← Sexp.str? n
+        let t ← typeOfSexp t
+        pure (n, t)
+      | _ => none)
+    let rk ← strs rk
+    let body ← logicOfSexp logic
+    pure { id, name, var, ty, params := ps, reqKnowledge := rk, body }
+  | _ => none
+
+def serviceOfSexp : Sexp → Option Service
+  | .list [id, name, var, ty, .list ind, .list inp, .list enc, .list out] => do
+    let id ← Sexp.str? id
+    let name ← Sexp.str? name
+    let var ← Sexp.str? var
+    let ty ← tyOfSexp ty
+    let ind ← strs ind
+    let inp ← strs inp
+    let enc ← strs enc
+    let out ← strs out
+    pure { id, name, var, ty, inputData := ind, inputDecisions := inp, encapsulated := enc, output := out }
+  | _ => none
+
+def graphOfSexp : Sexp → Option Drg
+  | .list [.atom "graph", .list is, .list ds, .list ks, .list ss] => do
+    let is ← is.mapM inputOfSexp
+    let ds ← ds.mapM decisionOfSexp
+    let ks ← ks.mapM bkmOfSexp
+    let ss ← ss.mapM serviceOfSexp
+    pure { inputs := is, decisions := ds, bkms := ks, services := ss }
+  | _ => none
+
+/-- correctly rounded decimal128 arithmetic, no built-in functions, the code's iteration engine and filter index -/
+def base : Env where
+  num := NumOps.d128
+  call := fun _ => EvalM.diverge
+  bifPos := Dmn.Driver.C01.bifPosStub
+  bifNamed := Dmn.Driver.C01.bifNamedStub
+  iter := Eval.Variant.code.iter
+  index := Eval.Variant.code.index
+
+def render (o : Outcome Value) : String :=
+  match o with
+  | .ok v => if Dmn.Driver.C01.hasUnsupported v then "(unsupported)" else s!"(ok {sexpOfValue v})"
+  | .panic site => s!"(panic {Sexp.ofStr site})"
+  | .diverge => "(diverge)"
+
+def ctxOfSexp := Dmn.Driver.C01.ctxOfSexp
+
+def handle (args : List Sexp) : String :=
+  match args with
+  | [.atom "eval", ff, gf, g, name, input] =>
+    match Sexp.nat? ff, Sexp.nat? gf, graphOfSexp g, Sexp.str? name, ctxOfSexp input with
+    | some ff, some gf, some g, some name, some input =>
+      let m := render (Drg.evaluateInvocable base g ff gf name input)
+      let d := render (Drg.Spec.evaluateInvocable base g ff gf name input)
+      s!"({m} {d} {if g.acyclic then "acyclic" else "cyclic"})"
+    | _, _, none, _, _ => "(error bad-graph)"
+    | _, _, _, _, _ => "(error bad-args)"
+  | [.atom "acyclic", g] =>
+    match graphOfSexp g with
+    | some g => if g.acyclic then "acyclic" else "cyclic"
+    | none => "(error bad-graph)"
+  | [.atom "closure", gf, g, name] =>
+    match Sexp.nat? gf, graphOfSexp g, Sexp.str? name with
+    | some gf, some g, some name =>
+      toString (Sexp.list (.atom "names" :: (Drg.closureNames g gf name).map Sexp.ofStr))
+    | _, _, _ => "(error bad-args)"
+  | _ => "(error bad-request)"
 
 end Dmn.Driver.C04
